@@ -176,6 +176,12 @@ theorem sort_children_stable_pair {lt : Int → Int → Bool} (h : StrictWeak lt
     (hxy : lt y.val x.val = false) (hs : [x, y].Sublist ks) : [x, y].Sublist (sortKidsBy lt ks) :=
   sortKidsBy_stable_pair h hxy hs
 
+/-- permutation + ordered + stable pin the result down: any arrangement of the children with these three properties is the
+one `sort(Predicate)` produces (so the specification does not depend on the algorithm inside `std::list::sort`) -/
+theorem sort_unique {lt : Int → Int → Bool} (h : StrictWeak lt) (ks l : List PT) (hp : l.Perm ks)
+    (hs : l.Pairwise (fun x y => lt y.val x.val = false)) (hst : ∀ v, l.filter (eqv lt v) = ks.filter (eqv lt v)) :
+    l = sortKidsBy lt ks := sortKidsBy_unique h ks l hp hs hst
+
 /-- sorting a sorted list changes nothing; in particular sorting twice is sorting once -/
 theorem sort_idempotent {lt : Int → Int → Bool} (h : StrictWeak lt) (ks : List PT) :
     sortKidsBy lt (sortKidsBy lt ks) = sortKidsBy lt ks := sortKidsBy_idem h ks
